@@ -88,7 +88,8 @@ func (b *exampleBuilder) buildExampleForObjectNode(node *internalSchema.ObjectNo
 		buf.Write(ex)
 	}
 	buf.WriteRune('}')
-	return buf.Bytes(), nil
+	// The buffer goes back to the pool: hand out a copy, not its memory.
+	return append([]byte(nil), buf.Bytes()...), nil
 }
 
 func (b *exampleBuilder) buildObjectKey(k internalSchema.ObjectNodeKey) ([]byte, error) {
@@ -155,7 +156,8 @@ func (b *exampleBuilder) buildExampleForArrayNode(node *internalSchema.ArrayNode
 		buf.Write(ex)
 	}
 	buf.WriteRune(']')
-	return buf.Bytes(), nil
+	// The buffer goes back to the pool: hand out a copy, not its memory.
+	return append([]byte(nil), buf.Bytes()...), nil
 }
 
 func (b *exampleBuilder) buildExampleForMixedValueNode(node *internalSchema.MixedValueNode) ([]byte, error) {
@@ -236,7 +238,8 @@ func buildExampleForObjectNode(
 		}
 	}
 	b.WriteRune('}')
-	return b.Bytes(), nil
+	// The buffer goes back to the pool: hand out a copy, not its memory.
+	return append([]byte(nil), b.Bytes()...), nil
 }
 
 func buildExampleForArrayNode(
@@ -264,7 +267,8 @@ func buildExampleForArrayNode(
 		}
 	}
 	b.WriteRune(']')
-	return b.Bytes(), nil
+	// The buffer goes back to the pool: hand out a copy, not its memory.
+	return append([]byte(nil), b.Bytes()...), nil
 }
 
 var exampleBufferPool = sync.NewBufferPool(512)
